@@ -45,6 +45,10 @@ THEOREMS = [
     "SleapVerif.C11.cache_unchanged",
     "SleapVerif.C11.getitem_deterministic",
     "SleapVerif.C11.getitem_eq_spec",
+    "SleapVerif.C11.build_refines_spec",
+    "SleapVerif.C11.getitem_eq_spec_build",
+    "SleapVerif.C11.build_len",
+    "SleapVerif.C11.single_rows_unpadded",
     "SleapVerif.C11.nocopy_counterexample",
     "SleapVerif.C11.len_eq_nonempty",
     "SleapVerif.C11.len_frames_eq_nonempty",
@@ -219,7 +223,7 @@ def gen_cfg(rng, spec, kind=None):
     return {"kind": kind, "user_only": rng.random() < 0.7, "max_hw": list(rng.choice(MAX_HW)), "cfg_max_hw": cfg_hw,
             "scale": rng.choice([1.0, 1.0, 0.5, 0.25]), "anchor": anchor,
             "crop_hw": list(rng.choice([(32, 32), (48, 64), (100, 100), (17, 24)])),
-            "max_stride": rng.choice([1, 16, 32])}
+            "max_stride": rng.choice([1, 16, 32]), "np_chunks": rng.random() < 0.2}
 
 
 def ds_line(variant, spec, cfg, seq):
@@ -309,7 +313,7 @@ class World:
         return sio.Labels(labeled_frames=lfs, videos=videos, skeletons=[skel])
 
 
-def make_dataset(labels, cfg):
+def make_dataset(labels, cfg, chunk_dir=None):
     from omegaconf import OmegaConf
     from sleap_nn.data.custom_datasets import (BottomUpDataset, CenteredInstanceDataset, CentroidDataset,
                                                SingleInstanceDataset)
@@ -323,6 +327,8 @@ def make_dataset(labels, cfg):
     hc = OmegaConf.create({"sigma": 1.5, "output_stride": 2, "anchor_part": cfg["anchor"]})
     common = dict(labels=labels, data_config=dc, max_stride=cfg["max_stride"], scale=cfg["scale"],
                   apply_aug=False, max_hw=tuple(cfg["max_hw"]))
+    if cfg.get("np_chunks"):
+        common.update(np_chunks=True, np_chunks_path=chunk_dir)
     k = cfg["kind"]
     if k == "bottomup":
         pc = OmegaConf.create({"sigma": 4, "output_stride": 4})
@@ -429,7 +435,29 @@ def run_dataset_case(chk, world, case, m_rep, m_asis, tmp):
     spec, cfg, seq = case["spec"], case["cfg"], case["seq"]
     labels = world.labels(spec)
     before = [[(inst, inst.numpy().copy()) for inst in lf.instances] for lf in labels]
-    r = call(make_dataset, labels, cfg)
+    chunk_dir = None
+    if cfg.get("np_chunks"):          # `.npz` chunk path: scratch directory, removed after the case
+        chunk_dir = tempfile.mkdtemp(prefix="chunks_", dir=tmp)
+    try:
+        _run_dataset_case(chk, world, case, m_rep, m_asis, labels, before, chunk_dir)
+    finally:
+        if chunk_dir:
+            shutil.rmtree(chunk_dir, ignore_errors=True)
+
+
+def file_digest(path):
+    import hashlib
+
+    with open(path, "rb") as fh:
+        return hashlib.sha1(fh.read()).hexdigest()
+
+
+def _run_dataset_case(chk, world, case, m_rep, m_asis, labels, before, chunk_dir):
+    import torch
+
+    spec, cfg, seq = case["spec"], case["cfg"], case["seq"]
+    npc = bool(cfg.get("np_chunks"))
+    r = call(make_dataset, labels, cfg, chunk_dir)
     if r[0] == "raise":
         chk.disagree("Dataset construction raised where the model builds a cache", case_json(case), f"raise:{r[1]}: {r[2]}", "ok")
         chk.fail(f"C11: the dataset cannot be built from valid labels ({r[1]}: {r[2][:120]})", case_json(case), None, signatures=[])
@@ -437,7 +465,11 @@ def run_dataset_case(chk, world, case, m_rep, m_asis, tmp):
     ds = r[1]
     rows = expected_rows(spec, cfg)
     impl_idx = ([x for p in ds.instance_idx_list for x in p] if cfg["kind"] == "centered" else list(ds.lf_idx_list))
-    cache0 = {i: snapshot(ds.cache[i]) for i in ds.cache}
+    if npc:      # the cache is a set of files: they must not change, and nothing else may appear
+        cache0 = {i: (ds.cache[i], file_digest(ds.cache[i])) for i in ds.cache}
+        files0 = sorted(os.listdir(chunk_dir))
+    else:
+        cache0 = {i: snapshot(ds.cache[i]) for i in ds.cache}
     first, impl_reads, fails, facts_all = {}, [], [], {"invented_nodes": set()}
     for i in seq:
         rr = call(ds.__getitem__, i)
@@ -464,9 +496,15 @@ def run_dataset_case(chk, world, case, m_rep, m_asis, tmp):
                 fails.append(f"ds[{i}]: {why}")
     # cache and labels untouched by the reads; length
     for i, snap in cache0.items():
+        if npc:
+            if ds.cache.get(i) != snap[0] or not os.path.exists(snap[0]) or file_digest(snap[0]) != snap[1]:
+                fails.append(f"chunk file of index {i} changed during the reads")
+            continue
         why = same_sample(snap, ds.cache[i])
         if why:
             fails.append(f"cache entry {i} changed during the reads: {why}")
+    if npc and sorted(os.listdir(chunk_dir)) != files0:
+        fails.append("chunk directory contents changed during the reads")
     if len(ds) != len(rows):
         fails.append(f"len(dataset) = {len(ds)} but the labels have {len(rows)} non-empty "
                      + ("instances" if cfg["kind"] == "centered" else "frames"))
@@ -488,7 +526,10 @@ def run_dataset_case(chk, world, case, m_rep, m_asis, tmp):
         i["pts"][cfg["anchor"]][0] is None and nonempty(i) for f in spec["frames"] for i in filtered(f, cfg["user_only"]))
     tags = [cfg["kind"], "user_only" if cfg["user_only"] else "all_instances", f"scale{cfg['scale']}",
             "anchor_none" if cfg["anchor"] is None else "anchor_set"] + (["anchor_missing_somewhere"] if anchor_holes else [])
-    key = (cfg["kind"], ds_line(1, spec, cfg, []))
+    tags += ["np_chunks" if npc else "in_memory_cache"]
+    if any(c is not None for c in cfg.get("cfg_max_hw", [None, None])):
+        tags.append("cfg_max_hw_set")
+    key = (cfg["kind"], npc, ds_line(1, spec, cfg, []))
     chk.case(key if rows else None, {"cfg": cfg, "frames": len(spec["frames"]), "len": len(ds), "reads": len(seq)}, tags)
     if m_rep["spec"] != 1:
         chk.disagree("heap-level getItem == specSample (model-internal)", case, None, m_rep)
@@ -774,6 +815,6 @@ if __name__ == "__main__":
         assumptions=["label coordinates on the k/16 lattice, size ratios dyadic (so float32 == rational arithmetic)",
                      "dataset-level labels use whole-point NaN only (half-NaN points are covered at generate_centroids level)",
                      "augmentation off for the determinism clause (apply_aug=False); augmentation functions are covered by the purity check",
-                     "in-memory cache path (np_chunks=False)"],
+                     "np_chunks=True cases use a scratch chunk directory (fresh chunks, use_existing_chunks=False)"],
     )
     run_check(chk, main, replay)
